@@ -9,12 +9,18 @@ import (
 	"os"
 	"os/exec"
 	"path/filepath"
+	"reflect"
+	"runtime"
 	"sort"
 	"strconv"
 	"strings"
 
 	"github.com/thomasjungblut/go-sstables/recordio"
+	rProto "github.com/thomasjungblut/go-sstables/recordio/proto"
 	"github.com/thomasjungblut/go-sstables/simpledb"
+	"github.com/thomasjungblut/go-sstables/skiplist"
+	"github.com/thomasjungblut/go-sstables/sstables"
+	sProto "github.com/thomasjungblut/go-sstables/sstables/proto"
 )
 
 // ---------------------------------------------------------------------------------------------
@@ -114,6 +120,9 @@ const dbRule = "session programs: Put/Delete/Get through string and byte flavour
 	"below and/or above a run of small tables, boundary keys deleted inside the run and valued in the older tables) followed by a compaction cycle, a restart and a second cycle; " +
 	"30 % add string-flavour probes (Delete(string) of keys that are only in tables / in no table at all, directly followed by string-flavour Get/Delete of other keys " +
 	"of the same and of other lengths, all keys read through both flavours, then flush and/or restart and the reads again); " +
+	"10 % start from a database directory left behind by an old release: 1..3 version-0 tables sstable_…001.. (the library's own v0_compat tables with / without " +
+	"metadata file and bloom filter, and tables of the same layout with keys of the session's universe), the reference map starts from their content read through " +
+	"the table reader before Open, the model receives the same content through its own steps; the legacy keys are read after every step like all others; " +
 	"a session that fails is run again through the byte flavour only (flavour differential: passes there = the flavours disagree, C17); " +
 	"the sessions run in a guarded child process: a process killed by a panic of a background goroutine is a violation with the session as failing input; " +
 	"non-trivial = at least one flush and one accepted write; distinct = distinct step strings"
@@ -466,6 +475,11 @@ func dbSession(res *Result, drv *Driver, r *Rng, idx int, tier string, bytesOnly
 	touching := r3.Chance(12) && !walSession
 	// probe sessions: string-flavour calls on keys that are not in the write memstore, see flavourProbe
 	probes := r3.Chance(30) && !walSession
+	// fourth generator state for the legacy-table dimension (C01, C06): the session starts from a database directory
+	// that an old release left behind, see the legacy block below
+	r4 := &Rng{s: r.s ^ 0x6c65676163797630}
+	r4.Next()
+	legacy := r4.Chance(10) && !walSession && !touching
 	if touching {
 		res.Stat("case:layout-neighbouring-key-ranges")
 	}
@@ -708,6 +722,110 @@ func dbSession(res *Result, drv *Driver, r *Rng, idx int, tier string, bytesOnly
 		}
 		return nil
 	}
+	// legacy sessions: the database directory already holds 1..3 version-0 tables (sstable_…001, …002, …) when the
+	// session opens it: the library's own version-0 test tables (with / without metadata file, with / without bloom
+	// filter) and tables of the same layout with keys of the session's universe.  The reference map starts from
+	// their content, read through the library's table reader before the database is opened (and checked against
+	// what was put there).  The model is given the same content through its own steps (open, puts, rotation, flush
+	// per table, close), the implementation column of those steps is filled in by the harness.
+	legacyNoMeta := map[string]bool{} // legacy tables without metadata file that no compaction has rewritten yet
+	modelOff := false
+	if legacy {
+		res.Stat("case:legacy-tables")
+		src := dbLegacyDir()
+		if src == "" {
+			res.Stat("legacy:library-test-tables-not-found:synthesised-only")
+		}
+		if r4.Chance(50) {
+			// a legacy table takes part in a cycle when enough tables are candidates
+			opts.threshold = []int{-1, 0, 0, 1}[r4.Intn(4)]
+		}
+		nt := []int{1, 1, 1, 2, 2, 3}[r4.Intn(6)]
+		res.Stat(fmt.Sprintf("legacy:tables=%d", nt))
+		emit(opts.modelTok(), "-")
+		addKey := func(k []byte) {
+			for _, o := range keys {
+				if bytes.Equal(o, k) {
+					return
+				}
+			}
+			keys = append(keys, k)
+		}
+		for t := 1; t <= nt; t++ {
+			name := fmt.Sprintf("%s_%015d", simpledb.SSTablePrefix, t)
+			dst := filepath.Join(dir, name)
+			var want [][2][]byte
+			var what string
+			if src != "" && r4.Chance(55) {
+				g := dbLegacyGenuine[r4.Intn(len(dbLegacyGenuine))]
+				if err := dbCopyDir(filepath.Join(src, g), dst); err != nil {
+					return err
+				}
+				for i := 1; i <= 7; i++ {
+					want = append(want, [2][]byte{{0, 0, 0, byte(i)}, {0, 0, 0, byte(i + 1)}})
+				}
+				what = "library:" + g
+				res.Stat("legacy:table:" + what)
+			} else {
+				sorted := append([][]byte(nil), keys...)
+				sort.Slice(sorted, func(i, j int) bool { return bytes.Compare(sorted[i], sorted[j]) < 0 })
+				must := r4.Intn(len(sorted))
+				for i, k := range sorted {
+					if i > 0 && bytes.Equal(k, sorted[i-1]) {
+						continue
+					}
+					if i != must && !r4.Chance(60) {
+						continue
+					}
+					v := r4.Bytes(1 + r4.Intn(30))
+					if r4.Chance(12) {
+						v = bytesRepeat(byte(r4.Next()), 200+r4.Intn(4000))
+					}
+					want = append(want, [2][]byte{k, v})
+				}
+				comp := []int{recordio.CompressionTypeNone, recordio.CompressionTypeSnappy, recordio.CompressionTypeGZIP}[r4.Intn(3)]
+				if err := dbWriteLegacyTable(dst, want, comp); err != nil {
+					return err
+				}
+				what = fmt.Sprintf("synthesised:%d-keys:compression=%d", len(want), comp)
+				res.Stat("legacy:table:synthesised")
+			}
+			_, merr := os.Stat(filepath.Join(dst, sstables.MetaFileName))
+			hasMeta := merr == nil
+			if !hasMeta {
+				legacyNoMeta[name] = true
+				res.Stat("legacy:table:without-metadata-file")
+			} else {
+				res.Stat("legacy:table:with-version-0-metadata-file")
+			}
+			trace = append(trace, fmt.Sprintf("legacy-table[%s=%s]", name, what))
+			got, metaRecords, version, err := dbReadTable(dst)
+			res.Evaluations++
+			same := err == nil && len(got) == len(want) && version == 0
+			for i := 0; same && i < len(got); i++ {
+				same = bytes.Equal(got[i][0], want[i][0]) && bytes.Equal(got[i][1], want[i][1])
+			}
+			if !same {
+				res.Violate(idx, "C01", "legacy-table:table-reader-disagrees-with-written-content",
+					fmt.Sprintf("table reader on %s: err=%v version=%d, %d records, want %d", what, err, version, len(got), len(want)), strings.Join(trace, " "))
+				return nil
+			}
+			if metaRecords == 0 && len(got) > 0 {
+				res.Stat("legacy:table:metadata-reports-0-records-for-a-non-empty-table")
+			}
+			for _, kv := range got {
+				addKey(kv[0])
+				if _, ok := ref[string(kv[0])]; ok {
+					res.Stat("legacy:key-in-several-legacy-tables")
+				}
+				ref[string(kv[0])] = kv[1]
+				emit("pb:"+gb(kv[0])+":"+gb(kv[1])+":0", "ok")
+			}
+			emit("rot", "-")
+			emit("flush", "-")
+		}
+		emit("close", "ok")
+	}
 	if err := openDb(); err != nil {
 		return err
 	}
@@ -809,6 +927,18 @@ func dbSession(res *Result, drv *Driver, r *Rng, idx int, tier string, bytesOnly
 		for _, s := range sizes {
 			szs = append(szs, strconv.FormatUint(s, 10))
 		}
+		if len(legacyNoMeta) > 0 && opts.maxSize == 0 && opts.ratioNum == 0 {
+			// a table without metadata file reports 0 records and 0 bytes: with a size limit of 0 and a ratio of 0 the
+			// selection (tombstone ratio >= 0 for tables WITH records) passes over it, while the model's tables know
+			// their record count.  The model has no metadata-less tables: such a session is checked by the oracles only.
+			names, _, _, _ := db.VerifTables()
+			for _, n := range names {
+				if legacyNoMeta[n] && !modelOff {
+					modelOff = true
+					res.Stat("legacy:oracle-only:cycle-with-size-limit-0-and-ratio-0-over-a-table-without-metadata")
+				}
+			}
+		}
 		dbJournal(append(trace, "compact["+before+"]"))
 		var sel []string
 		err = safely(func() error {
@@ -833,6 +963,15 @@ func dbSession(res *Result, drv *Driver, r *Rng, idx int, tier string, bytesOnly
 		}
 		emit("tables", after)
 		trace = append(trace, fmt.Sprintf("compact[%s→sel %s→%s]", before, g, after))
+		for _, n := range sel {
+			if legacyNoMeta[n] {
+				delete(legacyNoMeta, n)
+				res.Stat("legacy:cycle-merged-a-table-without-metadata")
+			}
+		}
+		if legacy && len(sel) > 0 {
+			res.Stat("legacy:cycle-merged")
+		}
 		if len(sel) > 0 {
 			res.Stat("op:compact:merged")
 			if !strings.HasPrefix(before[2:]+";", g+";") {
@@ -1044,6 +1183,10 @@ func dbSession(res *Result, drv *Driver, r *Rng, idx int, tier string, bytesOnly
 		}
 		trace = append(trace, "}")
 		return nil
+	}
+	if legacy {
+		// what the old release left behind reads as it was written
+		readAll("open-with-legacy-tables")
 	}
 	if touching {
 		// C06 layout: big older tables (excluded by the size limit, no tombstones) below and / or above a run of small
@@ -1471,6 +1614,9 @@ func dbSession(res *Result, drv *Driver, r *Rng, idx int, tier string, bytesOnly
 		res.NoteNontrivial(cs)
 	}
 	res.Sample(strings.Join(trace, " "))
+	if modelOff {
+		return nil
+	}
 	m, err := drv.Ask("db.run steps=" + cs)
 	if err != nil {
 		return err
@@ -1485,4 +1631,120 @@ func bytesRepeat(b byte, n int) []byte {
 		out[i] = b
 	}
 	return out
+}
+
+// ---------------------------------------------------------------------------------------------
+// legacy tables (sstables format version 0: every value is a DataEntry message, the index entries carry no value
+// checksum; the oldest ones have no meta.pb.bin at all and load with all-zero metadata)
+
+// the library's own version-0 tables (sstables/test_files/v0_compat): two without metadata file (one with a bloom
+// filter), two with a version-0 metadata file (one written by recordio v2); every one holds the keys
+// 00000001..00000007
+var dbLegacyGenuine = []string{"SimpleWriteHappyPathSSTable", "SimpleWriteHappyPathSSTableWithBloom",
+	"SimpleWriteHappyPathSSTableWithMetaData", "SimpleWriteHappyPathSSTableRecordIOV2"}
+
+// directory of the library's version-0 tables: next to the source file of the sstables package this binary was
+// built from
+func dbLegacyDir() string {
+	var cands []string
+	if f := runtime.FuncForPC(reflect.ValueOf(sstables.NewSSTableReader).Pointer()); f != nil {
+		file, _ := f.FileLine(f.Entry())
+		cands = append(cands, filepath.Join(filepath.Dir(file), "test_files", "v0_compat"))
+	}
+	cands = append(cands, "/repo/sstables/test_files/v0_compat")
+	for _, c := range cands {
+		if st, err := os.Stat(filepath.Join(c, dbLegacyGenuine[0], sstables.IndexFileName)); err == nil && !st.IsDir() {
+			return c
+		}
+	}
+	return ""
+}
+
+func dbCopyDir(src, dst string) error {
+	if err := os.MkdirAll(dst, 0o700); err != nil {
+		return err
+	}
+	ents, err := os.ReadDir(src)
+	if err != nil {
+		return err
+	}
+	for _, e := range ents {
+		b, err := os.ReadFile(filepath.Join(src, e.Name()))
+		if err != nil {
+			return err
+		}
+		if err := os.WriteFile(filepath.Join(dst, e.Name()), b, 0o600); err != nil {
+			return err
+		}
+	}
+	return nil
+}
+
+// dbWriteLegacyTable writes a version-0 table without metadata file the way the first releases did: data.rio holds
+// one DataEntry message per record, index.rio one IndexEntry (key, offset of the data record) per record
+func dbWriteLegacyTable(dst string, kvs [][2][]byte, compression int) (err error) {
+	if err := os.MkdirAll(dst, 0o700); err != nil {
+		return err
+	}
+	dw, err := rProto.NewWriter(rProto.Path(filepath.Join(dst, sstables.DataFileName)), rProto.CompressionType(compression))
+	if err != nil {
+		return err
+	}
+	if err := dw.Open(); err != nil {
+		return err
+	}
+	defer func() { err = errors.Join(err, dw.Close()) }()
+	iw, err := rProto.NewWriter(rProto.Path(filepath.Join(dst, sstables.IndexFileName)))
+	if err != nil {
+		return err
+	}
+	if err := iw.Open(); err != nil {
+		return err
+	}
+	defer func() { err = errors.Join(err, iw.Close()) }()
+	for _, kv := range kvs {
+		off, err := dw.Write(&sProto.DataEntry{Value: kv[1]})
+		if err != nil {
+			return err
+		}
+		if _, err := iw.Write(&sProto.IndexEntry{Key: kv[0], ValueOffset: off}); err != nil {
+			return err
+		}
+	}
+	return nil
+}
+
+// dbReadTable: content of a table directory through the library's table reader (full scan, and every scanned key
+// looked up again), plus the record count its metadata reports
+func dbReadTable(path string) (kvs [][2][]byte, metaRecords uint64, version uint32, err error) {
+	rd, err := sstables.NewSSTableReader(sstables.ReadBasePath(path), sstables.ReadWithKeyComparator(skiplist.BytesComparator{}))
+	if err != nil {
+		return nil, 0, 0, err
+	}
+	defer func() { err = errors.Join(err, rd.Close()) }()
+	metaRecords, version = rd.MetaData().NumRecords, rd.MetaData().Version
+	it, err := rd.Scan()
+	if err != nil {
+		return nil, 0, 0, err
+	}
+	for {
+		k, v, e := it.Next()
+		if errors.Is(e, sstables.Done) {
+			break
+		}
+		if e != nil {
+			return nil, 0, 0, e
+		}
+		kvs = append(kvs, [2][]byte{append([]byte{}, k...), append([]byte{}, v...)})
+	}
+	for _, kv := range kvs {
+		g, e := rd.Get(kv[0])
+		if e != nil {
+			return nil, 0, 0, fmt.Errorf("Get(%x) of a scanned key: %w", kv[0], e)
+		}
+		if !bytes.Equal(g, kv[1]) {
+			return nil, 0, 0, fmt.Errorf("Get(%x) = %x, the scan delivered %x", kv[0], g, kv[1])
+		}
+	}
+	return kvs, metaRecords, version, nil
 }
